@@ -35,6 +35,26 @@ Proof.
   - rewrite andb_true_r in *. apply negb_false_iff in Hb. rewrite Hb. reflexivity.
 Qed.
 
+(* the same under the weaker guard: no plain class defines a member BEFORE the class the code picks
+   (plain definers after it do not matter) *)
+Lemma nearest_any_agrees_walked t p : forall m,
+  (forall b, In b (walked t p m) -> plain_definer t p b = false) -> nearest_defining t p m = nearest_any t p m.
+Proof.
+  induction m as [|b m IH]; intro H; [reflexivity|]. cbn [nearest_defining nearest_any walked] in *.
+  unfold plain_definer in H at 1.
+  destruct (nth_error t b) as [c|] eqn:E.
+  - destruct (pair_empty (get_pair p c)) eqn:Ep; cbn [negb andb] in *.
+    + rewrite andb_false_r in *. apply IH. intros x Hx. apply H. right. exact Hx.
+    + rewrite andb_true_r in *. destruct (c_comp c) eqn:Ec; [reflexivity|].
+      specialize (H b (or_introl eq_refl)). rewrite E, Ec, Ep in H. discriminate.
+  - apply IH. intros x Hx. apply H. right. exact Hx.
+Qed.
+
+Lemma attr_nearest_any_guarded t c p fm m : mro_of t c = Some m ->
+  (forall b, In b (walked t p m) -> plain_definer t p b = false) ->
+  attr_spec t c p fm = match nearest_any t p m with Some cl => pair_value fm (get_pair p cl) | None => None end.
+Proof. intros Hm H. unfold attr_spec. rewrite Hm, (nearest_any_agrees_walked t p m H). reflexivity. Qed.
+
 (* the value every access returns (attr_spec, by access_order_independent) under that premise *)
 Lemma attr_nearest_any_no_plain_definer t c p fm m : mro_of t c = Some m ->
   (forall b, In b m -> plain_definer t p b = false) ->
